@@ -213,7 +213,7 @@ def trr_cases(draw):
     return {"kind": "trr", "natoms": n, "frames": frames, "endian": draw(st.sampled_from([">", "<"])), "double": draw(st.booleans()),
             "with_v": draw(st.booleans()), "with_f": draw(st.sampled_from([False, False, True])), "with_box": draw(st.sampled_from([True, True, False])),
             "cuts": draw(st.lists(st.floats(0, 1), min_size=0, max_size=6)), "adjacent": draw(st.booleans()),
-            "mode": draw(st.sampled_from(["single-cuts", "multi"])), "stride": draw(st.sampled_from([1, 3, 7])), "exit_with_last": draw(st.booleans()),
+            "mode": draw(st.sampled_from(["single-cuts", "multi"])), "stride": draw(st.sampled_from([1, 3, 7])), "exit_with_last": draw(st.booleans()), "exit_in_poll": draw(st.sampled_from([None, None, 1, 2, 3, 4, 6])),
             # velocities / forces written at other intervals than positions: frames of different size (None: all frames alike)
             "v_on": draw(st.one_of(st.none(), st.lists(st.booleans(), min_size=nf, max_size=nf))),
             "f_on": draw(st.one_of(st.none(), st.none(), st.lists(st.booleans(), min_size=nf, max_size=nf)))}
@@ -246,18 +246,30 @@ class StuckReader(Exception):
     pass
 
 
-def drive_trr(data, schedule, path, exit_with_last=False):
+def drive_trr(data, schedule, path, exit_with_last=False, exit_in_poll=None, ends=()):
     """Drive GromacsRunner.get_gromacs_frames with a stub process; each sleep() publishes the next chunk.
     exit_with_last: the writer has exited (poll() == 0) by the time its last chunk is visible, instead of one poll later."""
     from infretis.classes.engines import gromacs as g
 
     class Proc:
         returncode = None
+        polls = 0
 
         def poll(self):
+            # exit_in_poll = n: by the time of the n-th poll() the writer has written everything that was left and has exited
+            # (both happen between two looks of the reader - e.g. between its look at the file size and its look at the process)
+            self.polls += 1
+            if exit_in_poll and self.polls >= exit_in_poll and self.returncode is None:
+                if state["written"] < len(data):
+                    with open(path, "ab") as fh:
+                        fh.write(data[state["written"]:])
+                    state["written"] = len(data)
+                state["i"] = len(steps)
+                self.returncode = 0
             return self.returncode
 
-    steps = [s for s in schedule] + [len(data)]
+    # with exit_in_poll the tail of the file is not published by a sleep but inside that poll() call
+    steps = [s for s in schedule] + ([] if exit_in_poll else [len(data)])
     state = {"written": 0, "i": 0, "sleeps": 0}
     with open(path, "wb"):
         pass
@@ -270,10 +282,17 @@ def drive_trr(data, schedule, path, exit_with_last=False):
                 with open(path, "ab") as fh:
                     fh.write(data[state["written"] : c])
                 state["written"] = c
-            if exit_with_last and state["i"] == len(steps):
+            if exit_with_last and state["i"] == len(steps) and not exit_in_poll:
                 proc.returncode = 0
-        else:
+        elif not exit_in_poll:
             proc.returncode = 0
+        elif state["written"] not in ends and state["written"] > 0:
+            # the writer is alive and in the middle of a frame: it completes that frame (the reader may be waiting for the
+            # rest of it without looking at the process); the tail after it and the exit come with the n-th poll()
+            c = min([e for e in ends if e > state["written"]] or [len(data)])
+            with open(path, "ab") as fh:
+                fh.write(data[state["written"] : c])
+            state["written"] = c
 
     def fake_sleep(_t):
         state["sleeps"] += 1
@@ -320,6 +339,8 @@ def body_trr(rec, c):
     try:
         if c["mode"] == "single-cuts":
             scheds = [[cut] for cut in range(1, len(data), c["stride"])]
+            if c.get("exit_in_poll"):  # the reader is caught up at a frame boundary when the writer writes the rest and exits
+                scheds += [[e] for e in ends[:-1] if [e] not in scheds] + [ends[:k] for k in range(2, len(ends))]
         else:
             scheds = []
             for shift in range(0, 24):
@@ -328,7 +349,7 @@ def body_trr(rec, c):
                     offs = sorted(set(offs + [min(len(data), o + 1) for o in offs]))
                 scheds.append(offs)
         for sched in scheds:
-            got, live, exc = drive_trr(data, sched, path, exit_with_last=c.get("exit_with_last", False))
+            got, live, exc = drive_trr(data, sched, path, exit_with_last=c.get("exit_with_last", False), exit_in_poll=c.get("exit_in_poll"), ends=ends)
             inside = any(o not in ends for o in sched)
             in_hdr = any(any(e - 100 < o < h for e, h in zip([0] + ends, hdr_ends)) for o in sched)
             classes = ["trr", "trr:" + c["mode"], "trr:big-endian" if c["endian"] == ">" else "trr:little-endian", "trr:double" if c["double"] else "trr:single"]
@@ -336,6 +357,8 @@ def body_trr(rec, c):
                 classes.append("trr:frame-delivered-while-writer-running")
             if c.get("exit_with_last"):
                 classes.append("trr:writer-exits-with-its-last-flush")
+            if c.get("exit_in_poll"):
+                classes.append("trr:writer-finishes-and-exits-between-two-looks-of-the-reader")
             if (c.get("v_on") and len(set(c["v_on"])) > 1) or (c.get("f_on") and len(set(c["f_on"])) > 1):
                 classes.append("trr:frames-of-different-size")
             if in_hdr:
